@@ -25,7 +25,7 @@ cc == EVar(Cv)
 I(n) == EInt(n)
 Idx0(e) == EIndex(e, I(0))
 
-ListOps == 1 .. 24
+ListOps == 1 .. 29
 ListOp(o) ==
     CASE o = 1  -> SAssign(b, a)                                   \* alias
       [] o = 2  -> SAssign(cc, a)
@@ -51,6 +51,12 @@ ListOp(o) ==
       [] o = 22 -> SExpr(ECallOf(EVar(<<102, 114>>), <<Spread(a)>>))  \* spread into a rest parameter (fresh list)
       [] o = 23 -> SOpAssign(a, "+", EList(<<>>))                    \* a = a + [] : fresh even when nothing is added
       [] o = 24 -> SAssign(cc, EListOf(<<Item(b), Spread(a)>>))
+      \* copy-builds whose operand is an expression that yields an existing list (a call, an element)
+      [] o = 25 -> SAssign(b, EBin("+", ECall(EVar(R), <<>>), EList(<<I(5)>>)))
+      [] o = 26 -> SAssign(b, EBin("+", EList(<<I(5)>>), ECall(EVar(R), <<>>)))
+      [] o = 27 -> SAssign(b, ERIndex(ECall(EVar(R), <<>>), ENone, ENone))
+      [] o = 28 -> SAssign(b, EListOf(<<Spread(ECall(EVar(R), <<>>))>>))
+      [] o = 29 -> SAssign(b, EBin("+", Idx0(EList(<<a>>)), EList(<<>>)))
 
 ObjOps == 1 .. 18
 Kp(e) == EProp(e, KK)
